@@ -9,25 +9,22 @@ structure Inv (st : St) : Prop where
   /-- outputs name keys of the wallet -/
   keysOk : ∀ o ∈ st.outs, ∀ k, o.key = some k → k ∈ st.keys
   nodupKeys : st.keys.Nodup
-  /-- no two stored inputs consume the same outpoint -/
-  insNodup : (st.ins.map fun i => (i.ptx, i.pn)).Nodup
   /-- the `keys.balance` column holds the per-key sums of unspent outputs -/
   balOk : st.keyBal = st.keys.map fun k => (k, keyTotal st k)
 
 theorem inv_init : Inv init :=
-  ⟨by simp [init], by simp [init], by simp [init], by simp [init], by simp [init]⟩
+  ⟨by simp [init], by simp [init], by simp [init], by simp [init]⟩
 
 /-- the part of the invariant that does not mention the balance column -/
 structure InvT (st : St) : Prop where
   spentOk : ∀ o ∈ st.outs, spentInDb st o.txid o.n = true → o.spent = true
   keysOk : ∀ o ∈ st.outs, ∀ k, o.key = some k → k ∈ st.keys
   nodupKeys : st.keys.Nodup
-  insNodup : (st.ins.map fun i => (i.ptx, i.pn)).Nodup
 
-theorem Inv.toT {st : St} (h : Inv st) : InvT st := ⟨h.spentOk, h.keysOk, h.nodupKeys, h.insNodup⟩
+theorem Inv.toT {st : St} (h : Inv st) : InvT st := ⟨h.spentOk, h.keysOk, h.nodupKeys⟩
 
 theorem inv_balanceUpdate {st : St} (h : InvT st) : Inv (balanceUpdate st) :=
-  ⟨h.spentOk, h.keysOk, h.nodupKeys, h.insNodup, rfl⟩
+  ⟨h.spentOk, h.keysOk, h.nodupKeys, rfl⟩
 
 theorem sumValues_append (a b : List OutRec) : sumValues (a ++ b) = sumValues a + sumValues b := by
   simp [sumValues]
@@ -130,7 +127,7 @@ theorem inv_newKey {st : St} (h : Inv st) (k : Nat) : Inv (newKey st k).1 := by
   split
   · exact h
   · rename_i hk
-    refine ⟨h.spentOk, ?_, ?_, h.insNodup, ?_⟩
+    refine ⟨h.spentOk, ?_, ?_, ?_⟩
     · intro o ho k' hk'
       exact List.mem_append_left _ (h.keysOk o ho k' hk')
     · rw [List.nodup_append]
@@ -158,7 +155,7 @@ theorem invT_utxoAdd {st : St} (h : Inv st) (key value txid n conf : Nat) (hk : 
           txs := if hasTx st txid then st.txs else st.txs ++ [{ txid := txid, conf := conf, body := none }]
           outs := st.outs ++ [{ txid := txid, n := n, value := value, key := some key, spent := spentInDb st txid n }] }) := by
   split
-  · refine ⟨?_, ?_, h.nodupKeys, h.insNodup⟩
+  · refine ⟨?_, ?_, h.nodupKeys⟩
     · intro o ho hs
       simp only [List.mem_map] at ho
       obtain ⟨o0, ho0, rfl⟩ := ho
@@ -179,7 +176,7 @@ theorem invT_utxoAdd {st : St} (h : Inv st) (key value txid n conf : Nat) (hk : 
         cases hk'; exact hk
       · simp only [hm] at hk'
         exact h.keysOk o0 ho0 k hk'
-  · refine ⟨?_, ?_, h.nodupKeys, h.insNodup⟩
+  · refine ⟨?_, ?_, h.nodupKeys⟩
     · intro o ho hs
       rcases List.mem_append.mp ho with ho | ho
       · exact h.spentOk o ho (by simpa [spentInDb] using hs)
@@ -204,7 +201,6 @@ theorem inv_utxoAdd {st : St} (h : Inv st) (key value txid n conf : Nat) :
 structure SendOk (st : St) (txid : Nat) (b : TxBody) : Prop where
   fresh : hasTx st txid = false
   freshIn : ∀ i ∈ st.ins, i.ptx ≠ txid
-  unspentIn : ∀ p ∈ outpoints b, isUnspentOutpoint st p.1 p.2 = true
   nodup : (outpoints b).Nodup
   keys : ∀ o ∈ b.outs, ∀ k, o.2 = some k → k ∈ st.keys
 
@@ -213,8 +209,8 @@ theorem sendGuard_ok {st : St} {txid : Nat} {b : TxBody} (g : sendGuard st txid 
   unfold sendGuard at g
   simp only [Bool.and_eq_true, Bool.not_eq_true', List.all_eq_true, bne_iff_ne, ne_eq,
     decide_eq_true_eq] at g
-  obtain ⟨⟨⟨⟨g1, g2⟩, g3⟩, g4⟩, g5⟩ := g
-  refine ⟨g1, g2, g3, g4, ?_⟩
+  obtain ⟨⟨⟨g1, g2⟩, g4⟩, g5⟩ := g
+  refine ⟨g1, g2, g4, ?_⟩
   intro o ho k hk
   have := g5 o ho
   simp only [hk] at this
@@ -260,7 +256,7 @@ theorem inv_send {st : St} (h : Inv st) (txid : Nat) (b : TxBody) : Inv (send st
   · have g := sendGuard_ok gg
     rw [if_pos gg]
     apply inv_balanceUpdate
-    refine ⟨?_, ?_, h.nodupKeys, ?_⟩
+    refine ⟨?_, ?_, h.nodupKeys⟩
     · -- spentOk
       intro o ho hs
       simp only [List.mem_map] at ho
@@ -288,65 +284,37 @@ theorem inv_send {st : St} (h : Inv st) (txid : Nat) (b : TxBody) : Inv (send st
       · exact h.keysOk o0 ho0 k hk
       · obtain ⟨_, _, p, hp, hpk⟩ := mem_newOuts ho0
         exact g.keys p hp k (hpk ▸ hk)
-    · -- insNodup
-      simp only [List.map_append]
-      rw [List.nodup_append, inRecs_outpoints]
-      refine ⟨h.insNodup, g.nodup, ?_⟩
-      intro a ha c hc hac
-      subst hac
-      simp only [List.mem_map] at ha
-      obtain ⟨i, hi, rfl⟩ := ha
-      have hu := g.unspentIn _ hc
-      unfold isUnspentOutpoint at hu
-      simp only [List.any_eq_true, Bool.and_eq_true, beq_iff_eq] at hu
-      obtain ⟨o, ho, h1, h2⟩ := hu
-      unfold unspent unspentL at ho
-      rw [List.mem_filter] at ho
-      have hsp : o.spent = true := h.spentOk o ho.1
-        ((spentInDb_iff _ _ _).mpr ⟨i, hi, h1.symm, h2.symm⟩)
-      simp [hsp] at ho
   · rw [if_neg gg]; exact h
-
-theorem map_injOn_of_nodup {α β : Type} (f : α → β) :
-    ∀ (l : List α), (l.map f).Nodup → ∀ a ∈ l, ∀ c ∈ l, f a = f c → a = c
-  | [], _, a, ha, _, _, _ => by simp at ha
-  | x :: l, hn, a, ha, c, hc, e => by
-    simp only [List.map_cons, List.nodup_cons, List.mem_map, not_exists, not_and] at hn
-    rcases List.mem_cons.mp ha with ha' | ha' <;> rcases List.mem_cons.mp hc with hc' | hc'
-    · rw [ha', hc']
-    · rw [ha'] at e; exact absurd e.symm (hn.1 c hc')
-    · rw [hc'] at e; exact absurd e (hn.1 a ha')
-    · exact map_injOn_of_nodup f l hn.2 a ha' c hc' e
 
 theorem inv_delete {st : St} (h : Inv st) (txid : Nat) : Inv (delete st txid).1 := by
   unfold delete
   split
   · apply inv_balanceUpdate
-    refine ⟨?_, ?_, h.nodupKeys, ?_⟩
+    refine ⟨?_, ?_, h.nodupKeys⟩
     · intro o ho hs
       simp only [List.mem_map, List.mem_filter] at ho
       obtain ⟨o0, ⟨ho0, _⟩, rfl⟩ := ho
       rw [spentInDb_iff] at hs
       obtain ⟨i, hi, h1, h2⟩ := hs
       simp only [setSpent_txid, setSpent_n] at h1 h2
-      simp only [List.mem_filter, bne_iff_ne, ne_eq] at hi
       rw [setSpent_spent]
-      by_cases hf : (o0.txid, o0.n) ∈ (st.ins.filter fun i => i.tx == txid).map fun i => (i.ptx, i.pn)
-      · -- freed by the deleted transaction and still consumed by another one: impossible
+      by_cases hf : (o0.txid, o0.n) ∈ freedBy st txid
+      · -- freed by the deleted transaction and still consumed by another one: excluded by `freedBy`
         exfalso
-        simp only [List.mem_map, List.mem_filter, beq_iff_eq, Prod.mk.injEq] at hf
-        obtain ⟨j, ⟨hj, hjt⟩, hj1, hj2⟩ := hf
-        have := map_injOn_of_nodup (fun i : InRec => (i.ptx, i.pn)) st.ins h.insNodup i hi.1 j hj
-          (by simp [h1, h2, hj1, hj2])
-        exact hi.2 (this ▸ hjt)
+        unfold freedBy at hf
+        rw [List.mem_filter] at hf
+        have hany : ((st.ins.filter fun i => i.tx != txid).any fun i => i.ptx == o0.txid && i.pn == o0.n) = true := by
+          rw [List.any_eq_true]
+          exact ⟨i, hi, by simp [h1, h2]⟩
+        simp [hany] at hf
       · simp only [hf, if_false]
-        exact h.spentOk o0 ho0 ((spentInDb_iff _ _ _).mpr ⟨i, hi.1, h1, h2⟩)
+        have hi' : i ∈ st.ins := (List.mem_filter.mp hi).1
+        exact h.spentOk o0 ho0 ((spentInDb_iff _ _ _).mpr ⟨i, hi', h1, h2⟩)
     · intro o ho k hk
       simp only [List.mem_map, List.mem_filter] at ho
       obtain ⟨o0, ⟨ho0, _⟩, rfl⟩ := ho
       simp only [setSpent_key] at hk
       exact h.keysOk o0 ho0 k hk
-    · exact List.Nodup.sublist (List.Sublist.map _ (List.filter_sublist)) h.insNodup
   · exact h
 
 theorem inv_step {st : St} (h : Inv st) (op : Op) : Inv (step st op).1 := by
@@ -355,7 +323,7 @@ theorem inv_step {st : St} (h : Inv st) (op : Op) : Inv (step st op).1 := by
   | utxoAdd key value txid n conf => exact inv_utxoAdd h key value txid n conf
   | send txid b => exact inv_send h txid b
   | delete txid => exact inv_delete h txid
-  | reopen => exact ⟨h.spentOk, h.keysOk, h.nodupKeys, h.insNodup, h.balOk⟩
+  | reopen => exact ⟨h.spentOk, h.keysOk, h.nodupKeys, h.balOk⟩
   | balance => exact inv_balanceUpdate h.toT
 
 theorem inv_run {st : St} (h : Inv st) (ops : List Op) : Inv (run st ops) := by
